@@ -18,7 +18,7 @@ for fl in ('MEMB', 'MB', 'BP'):
             desc='%s: %s interrupted before every shared access (incl. between the plain read of the reader word and the store derived from it) by handlers satisfying the handler contract, while the updater flips the phase / arms the futex: the interrupted call keeps its postcondition (nesting +-1, phase kept / snapshot of gp.ctr)' % (fl.lower(), what)))
 # bp: a handler that registers the thread inside urcu_bp_register (shared with C15.O5; bounded, reported apart)
 from obligations import C15 as _c15
-OBLIGATIONS += [o for o in _c15.OBLIGATIONS if o.name in ('C15.O5.bp_register_signal', 'C15.O5.bp_register_already')]
+OBLIGATIONS += [o for o in _c15.OBLIGATIONS if o.name in ('C15.O5.bp_register_signal', 'C15.O5.bp_register_already', 'C15.O5.bp_register')]
 # "the handler's critical section receives the full grace-period guarantee and the interrupted code's guarantee is not weakened": a
 # handler nests on top of the interrupted section (nesting >= 2), so the updater's classification of reader words must be right for
 # EVERY nesting count, and bp grace periods must run with signals blocked (shared with C01)
